@@ -557,6 +557,250 @@ def p_builders(o):
     o.assumptions = ["the argument lists themselves are the model", "repeated setter calls are not specified and not exercised", "members declared as a wrapper of PhantomData (Box<PhantomData<T>>) are asserted neither way"]
 
 
+# ---------------------------------------------------------------------------------------------
+# programs through rustc (C13, C20): the event log is the compiler's JSON diagnostics per program
+
+def gen_progs(seed, tier):
+    d = os.path.join(WORK, "progs", "%d-%s-%d" % (seed, tier, os.getpid()))
+    shutil.rmtree(d, ignore_errors=True)
+    os.makedirs(d, exist_ok=True)
+    p = subprocess.run(["/usr/bin/python3", os.path.join(VERIF, "gen", "progs.py"), str(seed), tier, d], stdout=subprocess.PIPE, stderr=subprocess.PIPE, text=True,
+                       env={"PYTHONDONTWRITEBYTECODE": "1", "PATH": "/usr/bin:/bin"})
+    if p.returncode != 0:
+        raise Inconclusive("program generator failed: %s" % p.stderr[-800:])
+    return d
+
+
+def build_anchor():
+    """cargo-build the dependency anchor crate; returns dict with rlib paths and the deps dir."""
+    env = base_env()
+    with Lock():
+        ensure_fresh(env)
+        p = subprocess.run(["cargo", "build", "--offline", "-p", "progs", "--message-format=json"], cwd=HARNESS, env=env, stdout=subprocess.PIPE, stderr=subprocess.PIPE, text=True)
+    if p.returncode != 0:
+        lines = p.stderr.splitlines()
+        errs = [i for i, l in enumerate(lines) if l.startswith("error")]
+        raise Inconclusive("/repo does not build for the program checks:\n%s" % ("\n".join(lines[errs[0]:errs[0] + 40]) if errs else p.stderr[-1500:]))
+    libs = {}
+    for line in p.stdout.splitlines():
+        try:
+            m = json.loads(line)
+        except Exception:
+            continue
+        if m.get("reason") == "compiler-artifact":
+            n = m["target"]["name"]
+            for f in m.get("filenames", []):
+                if f.endswith(".rlib"):
+                    libs[n] = f
+    if "scale_info" not in libs or "parity_scale_codec" not in libs:
+        raise Inconclusive("could not locate the rlibs of scale-info / parity-scale-codec: %s" % sorted(libs))
+    return {"scale_info": libs["scale_info"], "scale": libs["parity_scale_codec"], "deps": os.path.dirname(libs["scale_info"])}
+
+
+def rustc_check(anchor, src, outdir, crate_type="lib", emit="metadata", crate_name=None, timeout=180):
+    """Compile one program on its own. Returns (ok, diagnostics list)."""
+    env = base_env()
+    env["CARGO_MANIFEST_DIR"] = os.path.join(HARNESS, "progs")
+    env["CARGO_PKG_NAME"] = "progs"
+    env.pop("RUSTFLAGS", None)
+    name = crate_name or os.path.basename(src)[:-3]
+    cmd = ["rustc", "--edition", "2021", "--crate-type", crate_type, "--crate-name", name, "--error-format=json", "-L", "dependency=" + anchor["deps"],
+           "--extern", "scale_info=" + anchor["scale_info"], "--extern", "scale=" + anchor["scale"], "--out-dir", outdir, "--cap-lints", "warn", src]
+    if emit == "metadata":
+        cmd += ["--emit=metadata"]
+    try:
+        p = subprocess.run(cmd, env=env, stdout=subprocess.PIPE, stderr=subprocess.PIPE, text=True, timeout=timeout)
+    except subprocess.TimeoutExpired:
+        return None, [{"level": "error", "message": "rustc timed out", "spans": []}]
+    diags = []
+    for line in p.stderr.splitlines():
+        try:
+            dct = json.loads(line)
+        except Exception:
+            continue
+        if dct.get("level") in ("error", "error: internal compiler error"):
+            diags.append({"level": "error", "message": dct.get("message", ""), "code": (dct.get("code") or {}).get("code"),
+                          "lines": [sp.get("line_start") for sp in dct.get("spans", []) if sp.get("is_primary")], "rendered": (dct.get("rendered") or "")[:1200]})
+    return p.returncode == 0, diags
+
+
+PROBE = """use scale_info::TypeInfo;
+#[derive(TypeInfo)]
+pub struct Probe<T> { pub a: T, pub b: Vec<u8> }
+pub fn f() -> scale_info::Type { <Probe<u8> as TypeInfo>::type_info() }
+"""
+
+
+def run_pool(jobs, fn):
+    import concurrent.futures as cf
+    with cf.ThreadPoolExecutor(max_workers=NCPU) as ex:
+        return list(ex.map(fn, jobs))
+
+
+def p_derive_accepts(o):
+    anchor = build_anchor()
+    d = gen_progs(o.seed, o.tier)
+    try:
+        out = os.path.join(d, "out")
+        os.makedirs(out, exist_ok=True)
+        with open(os.path.join(d, "probe.rs"), "w") as fh:
+            fh.write(PROBE)
+        ok, diags = rustc_check(anchor, os.path.join(d, "probe.rs"), out)
+        if not ok:
+            o.inconclusive.append("probe program does not compile against /repo: %s" % (diags[0]["rendered"] if diags else "?"))
+            return
+        plog = json.load(open(os.path.join(d, "pos.json")))
+        res = run_pool(plog, lambda p: rustc_check(anchor, os.path.join(d, "pos", p["name"] + ".rs"), out))
+        compiled = []
+        tags_seen = {}
+        for p, (ok, diags) in zip(plog, res):
+            o.evaluations += 1
+            for t in p["tags"]:
+                tags_seen[t] = tags_seen.get(t, 0) + 1
+            src = open(os.path.join(d, "pos", p["name"] + ".rs")).read()
+            body = src[src.index("// BEGIN-DEF"):src.index("// END-DEF")]
+            if ok is None:
+                o.inconclusive.append("rustc timed out on %s" % p["name"])
+            elif ok:
+                compiled.append(p)
+            else:
+                if "codec_skip_variant" in p["tags"]:
+                    key = "C13/skipped-variant-member-bound"
+                elif "codec_skip_generic" in p["tags"]:
+                    key = "C13/skipped-member-bound"
+                elif "compact_assoc" in p["tags"]:
+                    key = "C13/compact-assoc-bound"
+                else:
+                    key = "C13/does-not-compile"
+                o.violations.append({"key": key, "msg": "a supported definition (tags %s) does not compile or is not usable for its instantiations %s:\n%s\n%s" % (
+                    ",".join(p["tags"]), [i["inst"] for i in p["insts"]], body, diags[0]["rendered"] if diags else ""), "case": {"program": p["name"], "tags": p["tags"], "source": src, "diagnostics": diags[:3]}})
+                o.violation_count += 1
+            if len(o.samples) < 4:
+                o.samples.append({"program": p["name"], "tags": p["tags"], "definition": body.strip()[:500], "instantiations": [i["inst"] for i in p["insts"]], "compiled": bool(ok)})
+        # run the accepted programs: every instantiation must report the declared Some/None pattern
+        main = "#![allow(dead_code)]\n"
+        for p in compiled:
+            main += '#[path = "%s"]\nmod %s;\n' % (os.path.join(d, "pos", p["name"] + ".rs"), p["name"])
+        main += "fn main() {\n"
+        for p in compiled:
+            main += '    for (inst, ps) in %s::observe() { println!("%s\\t{}\\t{}", inst, ps.iter().map(|(n, s)| format!("{}={}", n, s)).collect::<Vec<_>>().join(",")); }\n' % (p["name"], p["name"])
+        main += "}\n"
+        with open(os.path.join(d, "all_main.rs"), "w") as fh:
+            fh.write(main)
+        ok, diags = rustc_check(anchor, os.path.join(d, "all_main.rs"), out, crate_type="bin", emit="link", crate_name="allpos", timeout=900)
+        if not ok:
+            o.inconclusive.append("accepted programs do not link into one binary: %s" % (diags[0]["rendered"] if diags else "?"))
+            return
+        r = subprocess.run([os.path.join(out, "allpos")], stdout=subprocess.PIPE, stderr=subprocess.PIPE, text=True, timeout=300)
+        if r.returncode != 0:
+            o.violations.append({"key": "C13/type_info-fails-at-run-time", "msg": "type_info() of an accepted instantiation failed at run time: %s" % r.stderr[-1500:], "case": {"stderr": r.stderr[-3000:]}})
+            o.violation_count += 1
+            return
+        got = {}
+        for line in r.stdout.splitlines():
+            name, inst, ps = line.split("\t")
+            got[(name, inst)] = ps
+        n_inst = 0
+        distinct = set()
+        for p in compiled:
+            for i in p["insts"]:
+                n_inst += 1
+                want = ",".join("%s=%s" % (n, "true" if sflag else "false") for n, sflag in i["params"])
+                distinct.add((p["name"], i["inst"]))
+                if got.get((p["name"], i["inst"])) != want:
+                    o.violations.append({"key": "C13/param-pattern", "msg": "%s %s reports type parameters [%s], declared [%s]" % (p["name"], i["inst"], got.get((p["name"], i["inst"])), want), "case": {"program": p["name"], "inst": i["inst"]}})
+                    o.violation_count += 1
+        o.distinct = len(distinct)
+        o.extra["counters"] = {"programs": len(plog), "programs_accepted": len(compiled), "instantiations_run": n_inst}
+        o.extra["tags_seen"] = tags_seen
+        need = ["direct", "containers", "phantom", "skip_type_params", "assoc", "recursive", "lifetime", "const_param", "default", "where_clause", "bounds_attr", "codec_skip", "compact", "seeded"]
+        for t in need:
+            if t not in tags_seen:
+                o.inconclusive.append("coverage floor missed: no program with tag %s" % t)
+    finally:
+        shutil.rmtree(d, ignore_errors=True)
+    o.rule = ("generated positive programs: one generic definition each (parameters used directly, in built-in containers, in PhantomData, through associated types, in self-referential positions; lifetimes, const parameters, "
+              "defaults, where clauses, bounds(..), skip_type_params, #[codec(skip)] / #[codec(compact)] members; each as named struct, tuple struct and two enum shapes; plus seeded combinations) with instantiations that use "
+              "a type WITHOUT TypeInfo for every skipped parameter and inside every skipped member. Each program is compiled on its own (rustc --emit=metadata against the rlib built from /repo), accepted ones are linked and run: "
+              "type_info() must report the declared Some/None parameter pattern. distinct = distinct (program, instantiation) run.")
+    o.assumptions = ["the observed system is rustc running the proc-macro; the monitor is an offline oracle over its diagnostics and over the run of the accepted programs",
+                     "explicit bounds must carry 'a: 'static themselves when a lifetime parameter is present"]
+
+
+def p_rejects(o):
+    anchor = build_anchor()
+    d = gen_progs(o.seed, o.tier)
+    try:
+        out = os.path.join(d, "out")
+        os.makedirs(out, exist_ok=True)
+        with open(os.path.join(d, "probe.rs"), "w") as fh:
+            fh.write(PROBE)
+        ok, diags = rustc_check(anchor, os.path.join(d, "probe.rs"), out)
+        if not ok:
+            o.inconclusive.append("probe program does not compile against /repo: %s" % (diags[0]["rendered"] if diags else "?"))
+            return
+        nlog = json.load(open(os.path.join(d, "neg.json")))
+        jobs = [(n, w) for n in nlog for w in ("twin", "neg")]
+        res = run_pool(jobs, lambda j: rustc_check(anchor, os.path.join(d, "neg", "%s_%s.rs" % (j[0]["name"], j[1])), out, crate_type="bin", crate_name="%s_%s" % (j[0]["name"], j[1])))
+        byname = {}
+        for (n, w), rr in zip(jobs, res):
+            byname.setdefault(n["name"], {})[w] = rr
+        groups = {}
+        rejected = 0
+        for n in nlog:
+            o.evaluations += 1
+            tw_ok, tw_d = byname[n["name"]]["twin"]
+            ng_ok, ng_d = byname[n["name"]]["neg"]
+            src = open(os.path.join(d, "neg", n["name"] + "_neg.rs")).read()
+            region = src[src.index("// BEGIN-NEG"):src.index("// END-NEG")]
+            lo = src[:src.index("// BEGIN-NEG")].count("\n") + 1
+            hi = src[:src.index("// END-NEG")].count("\n") + 1
+            groups[n["group"]] = groups.get(n["group"], 0) + 1
+            if len(o.samples) < 5:
+                o.samples.append({"program": n["name"], "group": n["group"], "ill_formed": region.strip()[:400], "rejected": ng_ok is False})
+            if not tw_ok:
+                o.inconclusive.append("positive twin of %s (%s) does not compile: %s" % (n["name"], n["group"], (tw_d[0]["rendered"] if tw_d else "?")[:400]))
+                continue
+            if ng_ok is None:
+                o.inconclusive.append("rustc timed out on %s" % n["name"])
+                continue
+            if ng_ok:
+                # it compiled: run it to record what the ill-formed construction produces
+                okb, _ = rustc_check(anchor, os.path.join(d, "neg", n["name"] + "_neg.rs"), out, crate_type="bin", emit="link", crate_name=n["name"] + "_run")
+                outcome = "(not run)"
+                if okb:
+                    r = subprocess.run([os.path.join(out, n["name"] + "_run")], stdout=subprocess.PIPE, stderr=subprocess.PIPE, text=True, timeout=60)
+                    outcome = ("exit %s; stdout: %s; stderr: %s" % (r.returncode, r.stdout[-600:], r.stderr[-400:]))
+                key = "C20/%s%s" % (n["group"], "/via-default" if "via-default" in n["tags"] or "::default()" in region and "Default" in region and n["group"].startswith("builder") and "via-default" in n["tags"] else "")
+                if n["group"].startswith("builder") and ("Assigned>::default()" in region or "as Default>::default()" in region):
+                    key = "C20/%s/via-default" % n["group"]
+                o.violations.append({"key": key, "msg": "an ill-formed program compiles (%s):\n%s\nwhen run: %s" % (n["group"], region.strip(), outcome), "case": {"program": n["name"], "tags": n["tags"], "source": src, "run": outcome}})
+                o.violation_count += 1
+                continue
+            # rejected: the error must be about the ill-formed construct
+            inside = [dg for dg in ng_d if any(l is not None and lo <= l <= hi for l in dg["lines"])]
+            if not inside:
+                o.inconclusive.append("%s is rejected, but no error points into the ill-formed construct: %s" % (n["name"], (ng_d[0]["rendered"] if ng_d else "?")[:300]))
+                continue
+            rejected += 1
+        o.distinct = rejected
+        o.extra["counters"] = {"negative_programs": len(nlog), "rejected_with_error_on_construct": rejected, "twins_compiled": sum(1 for n in nlog if byname[n["name"]]["twin"][0])}
+        o.extra["groups"] = groups
+        o.extra["exhaustive"] = True
+        o.extra["exhaustive_scope"] = "the enumerated negative grammar (every public way to obtain each builder typestate x every finisher with one part missing or of the wrong kind; container-level derive attribute errors) is compiled completely"
+        for g in ["builder/no-path", "builder/variant-without-index", "builder/field-without-type", "builder/named-among-unnamed", "builder/unnamed-among-named", "derive/union", "derive/unknown-attribute",
+                  "derive/duplicate-attribute", "derive/invalid-capture-docs", "derive/bounds-missing-param"]:
+            if g not in groups:
+                o.inconclusive.append("coverage floor missed: no negative program of group %s" % g)
+    finally:
+        shutil.rmtree(d, ignore_errors=True)
+    o.rule = ("negative programs, one ill-formed construct each, compiled on their own (rustc --emit=metadata), each with a positive twin that differs only in that construct and must compile: builders without path / index / type, "
+              "named among unnamed and unnamed among named in compile-time and portable form, every public way to obtain a builder typestate including Default::default(); derive on unions, unknown attributes, repeated "
+              "bounds / skip_type_params / capture_docs / crate, invalid capture_docs values, bounds(..) leaving a parameter unbound. Verdict: negative must be rejected with an error whose primary span lies in the construct. "
+              "distinct = negatives rejected with a located error.")
+    o.assumptions = ["for the typestate half no scale-info code executes: the observed system is rustc type-checking the crate's API", "error message texts are not pinned", "unknown attributes on fields/variants are outside the statement"]
+
+
 FEATS = ["std", "serde", "decode", "bit-vec", "schema", "docs"]
 
 
@@ -785,6 +1029,7 @@ PROPS = {
     "C08": dict(fn=p_codec, level="exploration"),
     "C09": dict(fn=p_mirror, level="exploration"),
     "C10": dict(fn=p_retain, level="exploration"),
+    "C13": dict(fn=p_derive_accepts, level="exploration"),
     "C14": dict(fn=p_decode, level="fault_enumeration"),
     "C12": dict(fn=p_table, level="exploration"),
     "C15": dict(fn=p_features, level="exploration"),
@@ -792,6 +1037,7 @@ PROPS = {
     "C17": dict(fn=p_builders, level="exploration"),
     "C18": dict(fn=p_ident, level="exploration"),
     "C19": dict(fn=p_schema, level="exploration"),
+    "C20": dict(fn=p_rejects, level="exploration"),
 }
 
 
